@@ -157,6 +157,33 @@ CHECKS = {
         "titles/legends, display formats, \\r in cells, custom reader/writer callbacks not covered.",
         technique="TLA+ list-of-rows and character-level text models (TLC) + spec->code replay incl. file round trips",
     ),
+    "C10": dict(
+        category="model_checking",
+        text="Serialise.tla states that a round trip (rich dict -> JSON -> deserialise_object, or pickle) is a stuttering step of every "
+        "object's state machine; TLC enumerates every behaviour (operation histories up to the depth bound with a round trip inserted "
+        "anywhere) for 21 kinds: old/new sequences with annotations and offsets, alignments (both classes), collections (old/new), "
+        "trees, tables, distance matrices and dict arrays, indel and feature maps, annotation dbs, likelihood functions (re-scoped, "
+        "optimised), substitution models, moltype, alphabet, NotCompleted, model_result, generic_result. Each behaviour is replayed on a "
+        "real object and the copy's observable projection is compared, after the round trip and after every later operation, with a "
+        "reference object that was never serialised.",
+        design_ref="DESIGN.md section 2 / C10",
+        note="Trusted: TLC, the projection functions in harness/kinds_C10.py (what 'observationally equal' means per kind). History depth 2 "
+        "(quick) / 3 (thorough), one round trip per behaviour. Registered deserialisers not exercised by any kind are listed in the evidence.",
+        technique="TLA+ stuttering specification (TLC enumeration of histories) + spec->code replay with reference-object comparison",
+    ),
+    "C14": dict(
+        category="model_checking",
+        text="ComposedApp.tla models inputs with per-step outcome classes (ok, raises, None, wrong type, own NotCompleted), a FIFO queue, "
+        "at most W running tasks, completion of ANY running task and consumption by the master; TLC checks conservation, exactly-once "
+        "accounting, first-failing-step naming, NotCompleted pass-through and termination for all outcome vectors and all completion "
+        "orders within the bounds. Serial behaviours are replayed on real composed apps over five writer/store combinations; every "
+        "feasible completion order for n<=4, W<=3 is FORCED on the real loky-backed apply_to with gate files; free-running parallel "
+        "runs are validated against Trace_ComposedApp.tla.",
+        design_ref="DESIGN.md section 2 / C14",
+        note="Trusted: TLC, gate-file scheduler (orders observed through the output store, never wall clock). MPI executor, progress UI, "
+        "write_tabular, > 4 inputs or > 3 workers not covered.",
+        technique="TLA+ schedule model (TLC exhaustive) + forced-schedule replay on the real executor + trace validation",
+    ),
 }
 
 PENDING = {}
